@@ -7,11 +7,6 @@ From LowGen Require Trans.
 Import ListNotations.
 Open Scope Z_scope.
 
-Definition words (bm : list Z) : Prop := Forall (fun w => 0 <= w < 2 ^ 64) bm.
-
-Lemma word_of bm k w : words bm -> nthZ bm k = Some w -> 0 <= w < 2 ^ 64.
-Proof. intros Hb E. exact (nthZ_Forall _ _ _ _ Hb E). Qed.
-
 (** the model (Model/BitmapNext.v) computes positions in unbounded Z, the code in int32: hypotheses under which
     no addition of the code wraps (a start position and an end at least 64 below 2^31), for EVERY fuel *)
 Lemma TransEq_bitmap_NextOne_fuel fuel bm i e : words bm -> 0 <= i < 2 ^ 31 - 64 -> - 2 ^ 31 <= e < 2 ^ 31 - 64 ->
